@@ -20,7 +20,9 @@ type gAlloc struct {
 // kindsConflict is written from the property statement: linear resources (buffers, linear images) versus
 // optimal-tiling images, and allocations of unknown kind versus anything.
 func kindsConflict(a, b uint32) bool {
-	unknown := func(k uint32) bool { return k == uint32(SuballocationUnknown) || k == uint32(SuballocationImageUnknown) }
+	unknown := func(k uint32) bool {
+		return k == uint32(SuballocationUnknown) || k == uint32(SuballocationImageUnknown)
+	}
 	linear := func(k uint32) bool { return k == uint32(SuballocationBuffer) || k == uint32(SuballocationImageLinear) }
 	optimal := func(k uint32) bool { return k == uint32(SuballocationImageOptimal) }
 	if unknown(a) || unknown(b) {
